@@ -520,6 +520,49 @@ func cmdCheck(args []string) int {
 		}
 		return nil
 	}
+	// Go's map iteration order is random in the native build: a counterexample
+	// that depends on it (the explorer chose a start position, vMapOrder)
+	// reproduces only on some runs: replay those again, a bounded number of times
+	isConfirmed := func(v *Violation, r *replayResult) bool {
+		if r == nil || !r.Ran || r.Vacuous {
+			return false
+		}
+		if v.Kind == "race" {
+			return r.Race
+		}
+		if v.Kind == "panic" || r.Crashed {
+			return r.Panic != ""
+		}
+		for _, f := range r.Failures {
+			if f == v.Label {
+				return true
+			}
+		}
+		return false
+	}
+	for attempt := 0; attempt < 12 && rerr == nil; attempt++ {
+		var again []string
+		for _, v := range allV {
+			path, ok := fileOf[v]
+			if !ok || v.Kind == "race" || !strings.Contains(v.Trace, "maporder") {
+				continue
+			}
+			if !isConfirmed(v, results[path]) {
+				again = append(again, path)
+			}
+		}
+		if len(again) == 0 {
+			break
+		}
+		r2, o2, e2 := nativeReplay(P, again, false)
+		rawOut += o2
+		if e2 != nil {
+			break
+		}
+		for path, r := range r2 {
+			results[path] = r
+		}
+	}
 	violations, unconfirmed := 0, 0
 	if skippedRace > 0 {
 		fmt.Fprintf(os.Stderr, "%d race candidates share a racing pair with a replayed one (or exceed the replay cap) and were not replayed separately\n", skippedRace)
